@@ -1,5 +1,7 @@
 package schema
 
+import "regexp"
+
 // C04 — totality: for every well-formed schema kind and every value shape a decoder (or a Go caller) can hand over,
 // Unserialize / data-mode ValidateCompatibility / Validate / Serialize return (result, error) and never panic or
 // diverge. The obligation is the absence of PANIC/UNWIND outcomes; the engine reports those with a replay vector.
@@ -18,8 +20,16 @@ type verifStructA struct {
 	B string `json:"b"`
 }
 type verifStructOther struct{ X int64 }
+type verifStructL struct {
+	A int64   `json:"a"`
+	L []int64 `json:"l"`
+}
+type verifStructSelf struct {
+	V    int64            `json:"v"`
+	Next *verifStructSelf `json:"next"`
+}
 
-const verifNData = 36
+const verifNData = 40
 
 // verifData returns a value of shape k; leaves are symbolic where that is meaningful.
 func verifData(tag string, k int, concFloat bool, concInt bool) any {
@@ -120,11 +130,19 @@ func verifData(tag string, k int, concFloat bool, concInt bool) any {
 		return map[string]int64{"a": 1}
 	case 35:
 		return map[bool]any{true: 1}
+	case 36: // a valid discriminator next to a non-string key
+		return map[any]any{"d": "x", int64(7): int64(1)}
+	case 37:
+		return map[any]any{"d": int64(1), nil: int64(1)}
+	case 38:
+		return (*regexp.Regexp)(nil)
+	case 39:
+		return verifStructL{A: nondetInt64(tag + "la")}
 	}
 	panic("bad data shape")
 }
 
-const verifNSchemas = 20
+const verifNSchemas = 24
 
 func verifTotalSchema(k int) Type {
 	intP := func(req bool) *PropertySchema {
@@ -176,6 +194,22 @@ func verifTotalSchema(k int) Type {
 		}))
 	case 19:
 		return NewObjectSchema("E", map[string]*PropertySchema{"a": intP(false).TreatEmptyAsDefaultValue()})
+	case 20: // an object without properties
+		return NewObjectSchema("Z", map[string]*PropertySchema{})
+	case 21: // list of property-less objects behind a reference
+		return NewScopeSchema(NewObjectSchema("R", map[string]*PropertySchema{
+			"l": NewPropertySchema(NewListSchema(NewRefSchema("Z", nil), nil, nil), nil, false, nil, nil, nil, nil, nil),
+		}), NewObjectSchema("Z", map[string]*PropertySchema{}))
+	case 22: // struct-mapped object with a list-typed treat-empty-as-default property
+		return NewStructMappedObjectSchema[verifStructL]("L", map[string]*PropertySchema{
+			"a": intP(false),
+			"l": NewPropertySchema(NewListSchema(NewIntSchema(nil, nil, nil), nil, nil), nil, false, nil, nil, nil, nil, nil).TreatEmptyAsDefaultValue(),
+		})
+	case 23: // struct-mapped object referring to itself through an optional reference
+		return NewScopeSchema(NewStructMappedObjectSchema[verifStructSelf]("Self", map[string]*PropertySchema{
+			"v":    intP(false),
+			"next": NewPropertySchema(NewRefSchema("Self", nil), nil, false, nil, nil, nil, nil, nil),
+		}))
 	}
 	panic("bad schema kind")
 }
